@@ -27,7 +27,7 @@ for d in sorted(glob.glob('/verif/seeded/real-F-*/')):
     pid = m['property']
     os.makedirs('/verif/regress/' + pid, exist_ok=True)
     for old in glob.glob('/verif/regress/%s/F%02d-*.json' % (pid, n)): os.remove(old)
-    slug = re.sub(r'[^a-z0-9]+', '-', (v['sub'] + '-' + v['signature']).lower())[:70].strip('-')
+    slug = re.sub(r'[^a-z0-9]+', '-', re.sub(r'/rustc/[0-9a-f]+/', '', v['sub'] + '-' + v['signature']).lower())[:70].strip('-')
     v['finding'] = 'F-%d' % n
     v['fixed_by'] = m.get('fix_commit')
     out = '/verif/regress/%s/F%02d-%s.json' % (pid, n, slug)
